@@ -1,7 +1,7 @@
 """C08 — merge: every item exactly once, per-input order kept, ends iff all inputs ended."""
 from .. import families, scan, zw
 from ..families import short, ctor_fields, self_path
-from . import racelike, flow, common, c01, c02, prims, joinlike
+from . import racelike, flow, common, c01, c02, c03, prims, joinlike
 
 PROPERTY = "C08"
 LEVEL = "other"
@@ -24,6 +24,8 @@ ASSUMPTIONS = [
 RULES = {
     "C08.ITEM": "Ready(Some) edge => same-call return of that item unmodified, nothing polled afterwards, input re-armed; Some returns only carry polled items",
     "C08.END": "Ready(None) edge => state None, counter+1 once; counter written nowhere else; Ready(None) only under counter == len; otherwise the scan continues",
+    "C08.ONCE": "premise: an input is polled only while live and is marked ended in the poll in which it returns None (ended-counter counts distinct inputs)",
+    "C08.LIVE": "an input whose readiness bit was cleared is polled in that pass (a wake-up recorded during the poll is not erased), and the task waker is registered first: items are not left undelivered",
     "C08.ZERO": "zero-length world (array, Vec) returns Ready(None) without polling / dividing by the length; merge of () is straight-line Ready(None)",
     "C08.EXT": "StreamExt::merge(self, other) = Merge::merge((self, other))",
 }
@@ -45,6 +47,11 @@ def run(ctx):
             with ctx.renamed({"C01.REARM": "C08.ITEM"}):
                 c01.rule_rearm(ctx, u)
             rule_end(ctx, M, u)
+            with ctx.renamed({"C03.GUARD": "C08.ONCE", "C03.MARK": "C08.ONCE", "C01.TOKEN": "C08.LIVE", "C01.REG": "C08.LIVE"}):
+                c03.rule_guard(ctx, u)
+                c03.rule_mark(ctx, u)
+                c01.rule_token(ctx, u)
+                c01.rule_reg(ctx, u)
             if u.container in ("array", "vec"):
                 rule_zero(ctx, M, u, divides)
         joinlike.rule_zero_tuple0(ctx, M, "merge", "C08.ZERO", "Ready(None)")
